@@ -47,6 +47,8 @@ def core_ir(r, nmax=3, returns=None):
         d = G.gen_default(r, typ, allow_code=False)
         if d[0] == "val":
             p["default"] = d[1]
+        if typ == "str" and r.random() < 0.1:
+            p["default"] = r.choice(['"', "'"])  # a value that IS a quotation mark (a CSV dialect's quotechar)
         params.append((nm, p))
     ret = None
     if returns if returns is not None else r.random() < 0.3:
@@ -162,6 +164,9 @@ def gen_project(r, n_kinds=None, prestates=PRESTATES, allow_method=True, allow_b
                 content = before or "import os\n"
             elif ps == "absent":
                 content = before or "import os\n"
+                if r.random() < 0.3:
+                    # the last line is not terminated - and ends with a blank, a tab, or is a dangling indentation
+                    content = content.rstrip("\n") + r.choice(["", " ", "\t", "  # end ", "\n    "])
             elif ps == "stale":
                 content = render(k, stale, name, method, before, after)
             elif ps == "near":
